@@ -584,6 +584,19 @@ Fixpoint range_for (fuel : nat) (ha : bool) (s : sys) : sys * list obs :=
       end
   end.
 
+(* style 8: a plain awaiter that re-arms from inside its own notification (argument = previous + 1) until something
+   other than a value comes out: a chain of style-6 accesses *)
+Fixpoint rearm_chain (fuel : nat) (ha : bool) (s : sys) (a : Z) : sys * list obs :=
+  match fuel with
+  | O => (s, [])
+  | S f =>
+      let '(s1, o) := drive ha s 6 a in
+      match o_res o with
+      | RVal _ => let '(s2, os) := rearm_chain f ha s1 (a + 1) in (s2, o :: os)
+      | _ => (s1, [o])
+      end
+  end.
+
 Fixpoint genc_from (ha : bool) (s : sys) (ops : list (list Z)) : list obs :=
   match ops with
   | [] => []
@@ -594,6 +607,8 @@ Fixpoint genc_from (ha : bool) (s : sys) (ops : list (list Z)) : list obs :=
           if y =? 7 then
             if negb ha && live s then let '(s1, os) := range_for (S (S (length (pc s)))) ha s in os ++ genc_from ha s1 t
             else rejected :: genc_from ha s t
+          else if y =? 8 then
+            let '(s1, os) := rearm_chain (S (S (length (pc s)))) ha s a in os ++ genc_from ha s1 t
           else let '(s1, o) := drive ha s y a in o :: genc_from ha s1 t
       | 0 :: _ => let '(s1, o) := step ha s (decode ha w) in zero_alloc o :: genc_from ha s1 t
       | [3] => let '(s1, o) := step ha s ODestroy in zero_alloc o :: genc_from ha s1 t
@@ -609,7 +624,9 @@ Definition genc_run (ha : bool) (ops : list (list Z)) : list (list Z) :=
 Fixpoint genc_args (ops : list (list Z)) : list Z :=
   match ops with
   | [] => []
-  | [1; y; a] :: t => if y =? 7 then genc_args t else a :: genc_args t
+  | [1; y; a] :: t => if y =? 7 then genc_args t
+                      else if y =? 8 then map (fun k => a + Z.of_nat k) (seq 0 64) ++ genc_args t   (* the chain is the last consuming op of a case *)
+                      else a :: genc_args t
   | _ :: t => genc_args t
   end.
 
